@@ -137,7 +137,7 @@ def _parse_params(c, params):
 def contract(key, module=None, qual=None, params=None, returns=None, requires=(), ensures=(),
              raises=None, modifies=(), loops=None, yields=False, pure=False, props=(),
              kind='repo', model=None, defaults=None, free_requires=(), notes='',
-             locals=None, verify=True, lemmas=(), reads=(), checks=(), scope_timeouts=(), is_property=False):
+             locals=None, verify=True, lemmas=(), reads=(), checks=(), scope_timeouts=(), is_property=False, ghost_entry=(), ghost_after=None):
     c = Contract(key)
     c.kind = kind
     c.module = module
@@ -163,7 +163,9 @@ def contract(key, module=None, qual=None, params=None, returns=None, requires=()
     c.reads = list(reads)
     c.scope_timeouts = list(scope_timeouts)
     c.checks = list(checks)
-    c.is_property = is_property      # proved at every normal exit, not exported to callers
+    c.is_property = is_property
+    c.ghost_entry = list(ghost_entry)          # ghost statements executed at function entry
+    c.ghost_after = dict(ghost_after or {})    # source text of a statement -> ghost statements run after it      # proved at every normal exit, not exported to callers
     c.locals = {k: T.parse_type(v) for k, v in (locals or {}).items()}
     CONTRACTS[key] = c
     for p in props:
